@@ -10,18 +10,29 @@ Local Open Scope N_scope.
    and both quote kinds: lexing the printed text, followed by any byte c that is not + or white space
    (the printer puts ; or { there), at the column where the printer put the opening quote, returns
    exactly s and stops at c. The hypothesis rt_hyp is forced (see the refuted statements below):
-     double quotes: s has no carriage return, no blank directly before a newline, and - single-line
-                    layout only - no blank directly after a newline;
+     double quotes: s has no carriage return;
      single quotes: s has no newline.
-   Tabs, either quote character, backslashes, empty lines, blanks at the start of the text or at the end
-   of the last line, lines of any length and any multi-byte characters are covered. *)
+   Since the printer escapes a newline next to blanks that would be stripped (commit f628c31), blanks
+   before a newline and - single-line layout - blanks after a newline need no hypothesis any more. Tabs
+   (always printed as backslash t), either quote character, backslashes, empty lines, blanks anywhere,
+   lines of any length and any multi-byte characters are covered. *)
 Theorem C10_yang_text_roundtrip :
   forall shrink level name s single_line single_quoted c rest,
     no_byte 10 name = true -> ylexable s = true -> is_term c = true ->
-    rt_hyp single_line single_quoted s = true ->
+    rt_hyp single_quoted s = true ->
     print_then_lex shrink level name s single_line single_quoted (c :: rest) = Ok (s, c :: rest).
 Proof. exact text_roundtrip. Qed.
 Print Assumptions C10_yang_text_roundtrip.
+
+(* The double-quoted case spelled out (every statement argument the schema printers print, except the
+   single-quoted arguments kept from the source): the only hypothesis on s beyond being lexable is the
+   absence of a carriage return, in both layouts. *)
+Theorem C10_yang_text_roundtrip_dquoted :
+  forall shrink level name s single_line c rest,
+    no_byte 10 name = true -> ylexable s = true -> is_term c = true -> no_byte 13 s = true ->
+    print_then_lex shrink level name s single_line false (c :: rest) = Ok (s, c :: rest).
+Proof. exact text_roundtrip_dq. Qed.
+Print Assumptions C10_yang_text_roundtrip_dquoted.
 
 (* ylexable holds for the RFC 3629 encoding of every sequence of characters that ly_getutf8() and
    is_yangutf8char() accept: all yang-char of RFC 7950 except plane 4 (C10_yang_char_plane4_refuted). *)
@@ -29,7 +40,7 @@ Theorem C10_yang_text_roundtrip_unicode :
   forall shrink level name cps single_line single_quoted c rest,
     let s := flat_map utf8_encode cps in
     no_byte 10 name = true -> forallb lexer_accepts_char cps = true -> is_term c = true ->
-    rt_hyp single_line single_quoted s = true ->
+    rt_hyp single_quoted s = true ->
     print_then_lex shrink level name s single_line single_quoted (c :: rest) = Ok (s, c :: rest).
 Proof.
   exact (fun shrink level name cps sl sq c rest Hn Hc Ht Hh =>
@@ -46,59 +57,65 @@ Theorem C10_yang_encode_roundtrip :
 Proof. exact encode_roundtrip. Qed.
 Print Assumptions C10_yang_encode_roundtrip.
 
-(* print (lex (print s)) = print s. Partial: only under rt_hyp; without it the statement is false
-   (C10_yang_text_print_fixpoint_refuted). *)
+(* print (lex (print s)) = print s. Partial: only under rt_hyp (no carriage return in a double-quoted
+   text, no newline in a single-quoted one); without it the statement is false
+   (C10_yang_text_print_fixpoint_cr_refuted). *)
 Theorem C10_yang_text_print_fixpoint_partial :
   forall shrink level name s single_line single_quoted c rest s' rest',
     no_byte 10 name = true -> ylexable s = true -> is_term c = true ->
-    rt_hyp single_line single_quoted s = true ->
+    rt_hyp single_quoted s = true ->
     print_then_lex shrink level name s single_line single_quoted (c :: rest) = Ok (s', rest') ->
     ypr_text shrink level name s' single_line single_quoted = ypr_text shrink level name s single_line single_quoted.
 Proof. exact print_fixpoint. Qed.
 Print Assumptions C10_yang_text_print_fixpoint_partial.
 
-(* Without the hypothesis: a description whose first line ends in a blank loses the blank
-   (RFC 7950 6.1.3 strips it on reading; the printer does not protect it) ... *)
-Theorem C10_yang_text_roundtrip_trailing_ws_refuted :
-  exists s s', s' <> s /\ ylexable s = true /\ no_byte 13 s = true /\
-    print_then_lex false 1 nm_description s false false [59] = Ok (s', [59]).
+(* The strings of the two repaired defects, with what is printed now (92 110 = backslash n):
+   a blank before a newline in the multi-line layout - the newline is escaped, also when the blanks are
+   followed by an empty line or end the text - and read back unchanged ... *)
+Theorem C10_yang_text_roundtrip_trailing_ws_fixed :
+  let s := [97; 32; 10; 32; 98] in
+  snd (ypr_text_parts false 1 nm_description s false false) = [34; 97; 32; 92; 110; 32; 98; 34] /\
+  print_then_lex false 1 nm_description s false false [59] = Ok (s, [59]) /\
+  snd (ypr_text_parts false 1 nm_description [97; 32; 32; 10; 10; 32; 10; 98; 32] false false) =
+    [34; 97; 32; 32; 92; 110; 10; 32; 32; 32; 32; 32; 32; 92; 110; 98; 32; 34].
 Proof.
-  exists [97; 32; 10; 32; 98], [97; 10; 32; 98].
-  split; [discriminate|]. destruct trailing_ws_witness as (H1 & H2 & _ & _ & H5). auto.
+  destruct trailing_ws_fixed as (H1 & H2 & H3). cbv zeta. rewrite H1, H3. auto.
 Qed.
-Print Assumptions C10_yang_text_roundtrip_trailing_ws_refuted.
+Print Assumptions C10_yang_text_roundtrip_trailing_ws_fixed.
 
-(* ... and the second print differs from the first. *)
-Theorem C10_yang_text_print_fixpoint_refuted :
-  exists s s', print_then_lex false 1 nm_description s false false [59] = Ok (s', [59]) /\
-    ypr_text false 1 nm_description s' false false <> ypr_text false 1 nm_description s false false.
-Proof. exists [97; 32; 10; 32; 98]. exact fixpoint_witness. Qed.
-Print Assumptions C10_yang_text_print_fixpoint_refuted.
+(* ... and blanks at the start of a continuation line in the single-line layout (units, default, presence,
+   must, when, ...): that newline is escaped, the next one (no blank after it) is a real line break; the
+   multi-line layout prints both as line breaks and indents to the column of the text. *)
+Theorem C10_yang_text_roundtrip_singleline_indent_fixed :
+  let s := [97; 10; 32; 32; 98; 10; 99] in
+  snd (ypr_text_parts false 1 nm_units s true false) = [34; 97; 92; 110; 32; 32; 98; 10; 32; 32; 32; 99; 34] /\
+  print_then_lex false 1 nm_units s true false [59] = Ok (s, [59]) /\
+  snd (ypr_text_parts false 1 nm_description s false false) =
+    [34; 97; 10; 32; 32; 32; 32; 32; 32; 32; 98; 10; 32; 32; 32; 32; 32; 99; 34] /\
+  print_then_lex false 1 nm_description s false false [59] = Ok (s, [59]).
+Proof.
+  destruct singleline_indent_fixed as (H1 & H2 & H3 & H4). cbv zeta. rewrite H1, H3. auto.
+Qed.
+Print Assumptions C10_yang_text_roundtrip_singleline_indent_fixed.
 
 (* A carriage return before a newline is dropped; anywhere else the printed text is rejected. *)
 Theorem C10_yang_text_roundtrip_cr_refuted :
-  (exists s s', s' <> s /\ ylexable s = true /\ no_pair 32 10 s = true /\
+  (exists s s', s' <> s /\ ylexable s = true /\
      print_then_lex false 1 nm_description s false false [59] = Ok (s', [59])) /\
   (exists s, ylexable s = true /\ print_then_lex false 1 nm_description s false false [59] = Err E_CR).
 Proof.
-  destruct cr_witness as (H1 & _ & H3 & H4 & H5 & H6). split.
+  destruct cr_witness as (H1 & _ & H4 & H5 & H6). split.
   - exists [97; 13; 10; 98], [97; 10; 98]. split; [discriminate|]. auto.
   - exists [97; 13; 98]. auto.
 Qed.
 Print Assumptions C10_yang_text_roundtrip_cr_refuted.
 
-(* Single-line layout (units, default, presence, must, when, ...): blanks at the start of a continuation
-   line are lost, because the printer indents continuation lines less than the column of the text. The
-   same string survives in the multi-line layout. *)
-Theorem C10_yang_text_roundtrip_singleline_indent_refuted :
-  exists s s', s' <> s /\ ylexable s = true /\ no_byte 13 s = true /\ no_pair 32 10 s = true /\
-    print_then_lex false 1 nm_units s true false [59] = Ok (s', [59]) /\
-    print_then_lex false 1 nm_description s false false [59] = Ok (s, [59]).
-Proof.
-  exists [97; 10; 32; 32; 98], [97; 10; 98]. split; [discriminate|].
-  destruct singleline_indent_witness as (H1 & H2 & H3 & _ & H5 & H6). auto.
-Qed.
-Print Assumptions C10_yang_text_roundtrip_singleline_indent_refuted.
+(* ... and then the second print differs from the first: print is not a fixpoint without the hypothesis. *)
+Theorem C10_yang_text_print_fixpoint_cr_refuted :
+  exists s s', print_then_lex false 1 nm_description s false false [59] = Ok (s', [59]) /\
+    ypr_text false 1 nm_description s' false false <> ypr_text false 1 nm_description s false false.
+Proof. exists [97; 13; 10; 98]. exact fixpoint_cr_witness. Qed.
+Print Assumptions C10_yang_text_print_fixpoint_cr_refuted.
 
 (* Single-quoted text holding a newline: the indentation printed on the next line becomes content. *)
 Theorem C10_yang_text_roundtrip_squote_newline_refuted :
@@ -125,13 +142,15 @@ Proof.
 Qed.
 Print Assumptions C10_yang_char_spec.
 
-(* The hypotheses are satisfiable by a non-trivial text (both quote kinds, backslash, tabs, empty line,
-   leading and final blanks, 2-, 3-, 4-byte characters), at two indentation settings and for a
-   single-quoted text with quotes, a backslash, a tab and a carriage return. *)
+(* The hypotheses are satisfiable by a non-trivial text (both quote kinds, backslash, tabs, empty lines,
+   leading blanks, blanks before a newline, final blanks, 2-, 3-, 4-byte characters), at two indentation
+   settings and in the single-line layout, and for a single-quoted text with quotes, a backslash, a tab and
+   a carriage return. *)
 Example C10_yang_text_example :
-  ylexable example_text = true /\ rt_hyp false false example_text = true /\ rt_hyp true false example_text = false /\
+  ylexable example_text = true /\ rt_hyp false example_text = true /\
   print_then_lex false 3 nm_description example_text false false [59] = Ok (example_text, [59]) /\
   print_then_lex true 0 nm_description example_text false false [32; 123] = Ok (example_text, [123]) /\
+  print_then_lex false 3 nm_units example_text true false [59] = Ok (example_text, [59]) /\
   (let s := [73; 116; 39; 115; 32; 39; 39; 34; 92; 9; 13] in
-   rt_hyp true true s = true /\ print_then_lex false 2 nm_default s true true [59] = Ok (s, [59])).
+   rt_hyp true s = true /\ print_then_lex false 2 nm_default s true true [59] = Ok (s, [59])).
 Proof. exact example_ok. Qed.
